@@ -239,6 +239,8 @@ def _internal_connection_error(msg):
         if names and len({n.split(".")[0] for n in names}) == 1:
             return "units:%s:%s" % (names[0].split(".")[0], amb.group(1))
     pairs = re.findall(r"Can't connect '([^']+)' to '([^']+)'", msg)
+    # ... or a promotion that a library group makes between its own subsystem and itself is refused (incompatible shapes)
+    pairs += re.findall(r"Can't promote '([^']+)' to '([^']+)'", msg)
     if not pairs:
         return None
     tops = set()
